@@ -257,12 +257,19 @@ fn observe_all(ase: &AsepriteFile, len: usize) -> Vec<String> {
             },
         );
         let mut v = Vec::new();
+        let mut t = Vec::new();
         for i in 0..1024u32 {
             if let Some(e) = pal.color(i) {
                 v.push(mapper.lookup(e.red(), e.green(), e.blue(), 255).to_string());
+                // the same colour, translucent, right after its opaque lookup: the transparent
+                // index (= failure = 0) whatever was looked up before
+                if i < 64 {
+                    t.push(mapper.lookup(e.red(), e.green(), e.blue(), 0).to_string());
+                    t.push(mapper.lookup(e.red(), e.green(), e.blue(), 128).to_string());
+                }
             }
         }
-        lines.push(format!("mapperx {}", v.join(",")));
+        lines.push(format!("mapperx {} | {}", v.join(","), t.join(",")));
     }
     lines
 }
